@@ -20,7 +20,10 @@ RULE = ('surface cases = (record of 1..400 samples from the shared record classe
         'integer), fractional short and long (up to 1.5x the record duration) and repeated values, scalar or array '
         'reductions in (0,1], nodal x trim x start, stt in {0, U(0,6dt), U(0,1.5 duration), multiples of dt}); every '
         'case calls calc_cum_abs_surface_energy (hence calc_surface_energy and trim_to_length), get_time_shift_motions, '
-        'a direct trim_to_length, the single-travel-time calls of the batch relation and an alpha-scaled copy. shift '
+        'a direct trim_to_length, the single-travel-time calls of the batch relation, an alpha-scaled copy and a sequence '
+        '(nodal energy, anti-nodal energy, cumulative x2, motions) that shares ONE reduction ndarray as up_red and down_red. '
+        'Value containers of the shift cases: float64, int64, list, uint8, uint16, int8, int16, int32, float32 with '
+        'magnitudes in the upper half of the dtype range (sums exceed it, differences go negative). shift '
         'cases = put_array_in_2d_array for every shift vector over {-3..3} of length 1..3 (quick) / 1..4 (thorough) x n '
         'in {1,2,4} x 4 clip modes (distinct by construction) plus random vectors (all-zero / all-negative / '
         'all-positive / mixed, |shift| up to 2n) and joins with non-negative shifts. distinct = digest of all inputs; '
@@ -36,23 +39,28 @@ ASSUMPTIONS = ['finite real records, dt > 0, travel times >= 0, stt >= 0',
                'observed, its inner join is judged on the integer shifts it receives',
                'tolerances: energy 1e-9*max|E| + 1e-11*V^2, cumulative 1e-9*(max + V^2), motions 1e-9*(|up|+|down|)*max|x| '
                'with V = dt*(|up|+|down|)*sum|x|; shifted arrays exact',
+               'values of shifted/joined arrays are judged numerically in exact float64 arithmetic on the input values; '
+               'the dtype of the result is not part of the statement',
+               'purity: ndarray reductions handed to the surface functions must be bit-for-bit unchanged after the call',
                'oracle vf/oracles/surface.py is correct']
 EXHAUSTIVE = {'quick': 'put_array_in_2d_array: all shift vectors over {-3..3} of length 1..3 x n in {1,2,4} x clip in '
                        '{none,start,end,both}; join_values_w_shifts: all vectors over {0..3} of length 1..3 x n x {add,sub}',
               'thorough': 'put_array_in_2d_array: all shift vectors over {-3..3} of length 1..4 x n in {1,2,4} x clip in '
                           '{none,start,end,both}; join_values_w_shifts: all vectors over {0..3} of length 1..4 x n x {add,sub}'}
-MIN_EVALS = {'quick': {'energy==oracle': 2500, 'cum==oracle': 1900, 'cum==cumsum|d(observed energy)|': 1900,
-                       'cum.non-decreasing': 1900, 'cum.zero@tau0-nodal': 350, 'cum.scales-alpha^2(pow2,exact)': 350,
-                       'cum.scales-alpha^2(tol)': 350, 'motions==oracle': 900, 'trim.placement': 3000,
-                       'trim.identity(no trim,no start)': 900, 'energy.batch-row==single': 450,
-                       'cum.batch-row==single': 450, 'motions.batch-row==single': 450, 'put2d==offsets': 8000,
-                       'join==padded+-shifted': 900},
-             'thorough': {'energy==oracle': 47000, 'cum==oracle': 34000, 'cum==cumsum|d(observed energy)|': 34000,
-                          'cum.non-decreasing': 34000, 'cum.zero@tau0-nodal': 6500,
+MIN_EVALS = {'quick': {'energy==oracle': 5500, 'cum==oracle': 3500, 'cum==cumsum|d(observed energy)|': 3500,
+                       'cum.non-decreasing': 3500, 'cum.zero@tau0-nodal': 600, 'cum.scales-alpha^2(pow2,exact)': 350,
+                       'cum.scales-alpha^2(tol)': 350, 'motions==oracle': 1700, 'trim.placement': 6000,
+                       'trim.identity(no trim,no start)': 1800, 'energy.batch-row==single': 450,
+                       'cum.batch-row==single': 450, 'motions.batch-row==single': 450, 'put2d==offsets': 8500,
+                       'join==padded+-shifted': 1400, 'purity.reductions-unchanged': 9000,
+                       'shared-reduction==fresh-copies': 2000},
+             'thorough': {'energy==oracle': 100000, 'cum==oracle': 62000, 'cum==cumsum|d(observed energy)|': 62000,
+                          'cum.non-decreasing': 62000, 'cum.zero@tau0-nodal': 11000,
                           'cum.scales-alpha^2(pow2,exact)': 6500, 'cum.scales-alpha^2(tol)': 6500,
-                          'motions==oracle': 16000, 'trim.placement': 57000, 'trim.identity(no trim,no start)': 18000,
+                          'motions==oracle': 30000, 'trim.placement': 110000, 'trim.identity(no trim,no start)': 33000,
                           'energy.batch-row==single': 8000, 'cum.batch-row==single': 8000,
-                          'motions.batch-row==single': 8000, 'put2d==offsets': 120000, 'join==padded+-shifted': 12000}}
+                          'motions.batch-row==single': 8000, 'put2d==offsets': 120000, 'join==padded+-shifted': 20000,
+                          'purity.reductions-unchanged': 160000, 'shared-reduction==fresh-copies': 35000}}
 CTX = None
 _INNER = {'active': False, 'energy': None}
 
@@ -87,7 +95,8 @@ def _wit_surface(fn, p, **extra):
     a = p['asig']
     d = {'fn': fn, 'values': np.asarray(a.values), 'dt': float(a.dt), 'travel_times': np.atleast_1d(np.asarray(p['travel_times'])),
          'tt_container': _tt_container(p['travel_times']), 'nodal': p['nodal'], 'up_red': p['up_red'],
-         'down_red': p['down_red'], 'stt': p['stt'], 'trim': p['trim'], 'start': p['start']}
+         'down_red': p['down_red'], 'stt': p['stt'], 'trim': p['trim'], 'start': p['start'],
+         'same_red_object': bool(p.get('same_red_object', p['up_red'] is p['down_red'] and isinstance(p['up_red'], np.ndarray)))}
     d.update(extra)
     return d
 
@@ -195,9 +204,47 @@ def _as2d(result, k):
     return got
 
 
-def _check_surface(fn, args, kwargs, result):
+def _snap_reductions(args, kwargs):
+    """pre-state: bit copies of ndarray reductions as they were handed in (the same object may serve as both)."""
+    p = _parse(args, kwargs, _SURF_NAMES, _SURF_DEF)
+    u, d = p['up_red'], p['down_red']
+    return {'up': u.copy() if isinstance(u, np.ndarray) else None,
+            'down': d.copy() if isinstance(d, np.ndarray) else None, 'same': u is d and isinstance(u, np.ndarray)}
+
+
+def _same_bits(a, b):
+    return a.dtype == b.dtype and a.shape == b.shape and a.tobytes() == b.tobytes()
+
+
+def _check_purity(fn, p, snap):
+    """The caller's reduction arrays are bit-for-bit what they were before the call."""
+    if snap is None or (snap['up'] is None and snap['down'] is None):
+        return
+    okk = True
+    for key, nm in (('up', 'up_red'), ('down', 'down_red')):
+        if snap[key] is not None and not (isinstance(p[nm], np.ndarray) and _same_bits(p[nm], snap[key])):
+            okk = False
+    CTX.check(okk, 'purity.reductions-unchanged',
+              lambda: _wit_surface(fn, dict(p, up_red=snap['up'] if snap['up'] is not None else p['up_red'],
+                                            down_red=snap['down'] if snap['down'] is not None else p['down_red']),
+                                   same_red_object=snap['same'], up_red_after=p['up_red'], down_red_after=p['down_red']),
+              '%s changed the caller\'s reduction array(s): up_red %s -> %s, down_red %s -> %s%s'
+              % (fn, None if snap['up'] is None else snap['up'].tolist(), np.asarray(p['up_red']).tolist(),
+                 None if snap['down'] is None else snap['down'].tolist(), np.asarray(p['down_red']).tolist(),
+                 ' (one object passed as both)' if snap['same'] else ''))
+
+
+def _check_surface(fn, args, kwargs, result, snap=None):
     ctx = CTX
     p = _parse(args, kwargs, _SURF_NAMES, _SURF_DEF)
+    if snap is not None:
+        _check_purity(fn, p, snap)
+        p = dict(p)     # the reference is computed from the reductions as they were handed in
+        if snap['up'] is not None:
+            p['up_red'] = snap['up']
+        if snap['down'] is not None:
+            p['down_red'] = snap['down']
+        p['same_red_object'] = snap['same']
     norm, reason = _normalise(p)
     if norm is None:
         ctx.observe('%s: out of domain (%s)' % (fn, reason))
@@ -215,17 +262,17 @@ def _check_surface(fn, args, kwargs, result):
 def _post_energy(args, kwargs, result, pre):
     if _INNER['active']:
         _INNER['energy'] = result
-    _check_surface('calc_surface_energy', args, kwargs, result)
+    _check_surface('calc_surface_energy', args, kwargs, result, pre)
 
 
 def _post_motions(args, kwargs, result, pre):
-    _check_surface('get_time_shift_motions', args, kwargs, result)
+    _check_surface('get_time_shift_motions', args, kwargs, result, pre)
 
 
 def _pre_cum(args, kwargs):
     _INNER['active'] = True
     _INNER['energy'] = None
-    return None
+    return _snap_reductions(args, kwargs)
 
 
 def _exc_cum(args, kwargs, exc, pre):
@@ -238,7 +285,7 @@ def _post_cum(args, kwargs, result, pre):
     _INNER['active'] = False
     _INNER['energy'] = None
     fn = 'calc_cum_abs_surface_energy'
-    r = _check_surface(fn, args, kwargs, result)
+    r = _check_surface(fn, args, kwargs, result, pre)
     if r is None:
         return
     p, (x, dt, taus, ups, downs, stt), got = r
@@ -392,9 +439,9 @@ def install(ctx):
     if getattr(sf.calc_surface_energy, '__vf_c19__', False):    # already attached in this process: only switch the context
         return
     ts = eqsig.fns.time_shift
-    attach.wrap(sf, 'calc_surface_energy', _post_energy).__vf_c19__ = True
+    attach.wrap(sf, 'calc_surface_energy', _post_energy, pre=_snap_reductions).__vf_c19__ = True
     attach.wrap(sf, 'calc_cum_abs_surface_energy', _post_cum, pre=_pre_cum, on_exception=_exc_cum)
-    attach.wrap(sf, 'get_time_shift_motions', _post_motions)
+    attach.wrap(sf, 'get_time_shift_motions', _post_motions, pre=_snap_reductions)
     attach.wrap(sf, 'trim_to_length', _post_trim)
     attach.wrap(ts, 'put_array_in_2d_array', _post_put)
     attach.wrap(ts, 'join_values_w_shifts', _post_join)
@@ -416,14 +463,15 @@ def _kwargs(c):
     kw = {'nodal': c['nodal'], 'stt': c['stt'], 'trim': c['trim'], 'start': c['start']}
     if c.get('up_red') is not None:
         kw['up_red'] = c['up_red']
-        kw['down_red'] = c['down_red']
+        kw['down_red'] = c['up_red'] if c.get('same_red_object') else c['down_red']   # one object for both when recorded so
     return kw
 
 
 def _case_wit(fn, c, **extra):
     d = {'fn': fn, 'values': np.asarray(c['values']), 'dt': c['dt'], 'travel_times': np.atleast_1d(np.asarray(c['travel_times'])),
          'tt_container': c.get('tt_container', 'ndarray'), 'nodal': c['nodal'], 'up_red': c.get('up_red'),
-         'down_red': c.get('down_red'), 'stt': c['stt'], 'trim': c['trim'], 'start': c['start']}
+         'down_red': c.get('down_red'), 'stt': c['stt'], 'trim': c['trim'], 'start': c['start'],
+         'same_red_object': bool(c.get('same_red_object', False))}
     d.update(extra)
     return d
 
@@ -667,6 +715,35 @@ def run_surface_case(eqsig, ctx, c, i, alpha):
     elif i % 3 == 0:
         _call(eqsig, ctx, 'calc_surface_energy', c)
     _rel_alpha(eqsig, ctx, c, alpha, base=cum)
+    if isinstance(c.get('up_red'), np.ndarray) or i % 4 == 1:
+        _seq_shared_reductions(eqsig, ctx, c, i)
+
+
+def _seq_shared_reductions(eqsig, ctx, c, i):
+    """Consecutive calls that share ONE reduction ndarray (passed as up_red and as down_red): nodal then anti-nodal energy,
+    then the cumulative series, then the motions. The array must stay bit-for-bit what it was, and every call must give what
+    a call with fresh copies gives (the monitors judge each call against the reductions handed in)."""
+    k = len(c['travel_times'])
+    red = np.array(c['up_red'], dtype=float) if isinstance(c.get('up_red'), np.ndarray) else \
+        np.linspace(0.3, 0.9, k) * (1.0 if i % 2 else 0.5)
+    keep = red.copy()
+    c2 = dict(c, up_red=red, down_red=red, same_red_object=True)
+    seq = [('calc_surface_energy', True), ('calc_surface_energy', False), ('calc_cum_abs_surface_energy', c['nodal']),
+           ('calc_cum_abs_surface_energy', not c['nodal']), ('get_time_shift_motions', c['nodal'])]
+    for fn, nodal in seq:
+        cc = dict(c2, nodal=nodal)
+        got = _call(eqsig, ctx, fn, cc)
+        ctx.check(_same_bits(red, keep), 'purity.reductions-unchanged',
+                  lambda: _case_wit(fn, dict(cc, up_red=keep, down_red=keep), up_red_after=red.copy()),
+                  'after %s(nodal=%s) the shared reduction array changed from %s to %s' % (fn, nodal, keep.tolist(), red.tolist()))
+        if got is None or not _same_bits(red, keep):
+            red[...] = keep      # restore so that the following calls are judged on the intended input
+            continue
+        fresh = _call(eqsig, ctx, fn, dict(cc, up_red=keep.copy(), down_red=keep.copy(), same_red_object=False))
+        if fresh is not None:
+            ctx.check(np.shape(got) == np.shape(fresh) and bool(np.array_equal(got, fresh)), 'shared-reduction==fresh-copies',
+                      lambda: _case_wit('rel.shared', cc, base_fn=fn),
+                      '%s with one shared reduction array differs from the call with separate copies' % fn)
 
 
 # -- shift workload ---------------------------------------------------------------------------------------------------
@@ -716,15 +793,40 @@ def gen_shift_case(rng):
     else:
         sh = rng.integers(-m, m + 1, size=k)
     sh = np.asarray(sh, dtype=np.int64)
-    r = rng.random()
-    if r < 0.5:
-        vals = rng.normal(size=n)
-    elif r < 0.75:
-        vals = rng.integers(-9, 10, size=n).astype(float)
-        vals[vals == 0] = 1.0
-    else:
-        vals = rng.integers(1, 10, size=n)        # integer dtype
-    return vals, sh, kind
+    vals, vk = draw_values(rng, n)
+    return vals, sh, kind + '/' + vk
+
+
+VALUE_KINDS = ['float64', 'float64-int', 'int64', 'uint8', 'uint16', 'int8', 'int16', 'int32', 'float32', 'float32-huge']
+
+
+def draw_values(rng, n, vk=None):
+    """Value containers of several dtypes whose magnitudes use the dtype's range: sums of two entries exceed it and
+    differences go negative / below it, so arithmetic carried out in the input dtype would wrap, saturate or round."""
+    if vk is None:
+        vk = VALUE_KINDS[int(rng.integers(len(VALUE_KINDS)))]
+    if vk == 'float64':
+        return rng.normal(size=n), vk
+    if vk == 'float64-int':
+        v = rng.integers(-9, 10, size=n).astype(float)
+        v[v == 0] = 1.0
+        return v, vk
+    if vk == 'int64':
+        return rng.integers(1, 10, size=n), vk
+    if vk in ('uint8', 'uint16'):
+        top = np.iinfo(vk).max
+        return rng.integers(top // 2 + 1, top + 1, size=n).astype(vk), vk          # a+b > max, a-b < 0 half of the time
+    if vk in ('int8', 'int16', 'int32'):
+        top = np.iinfo(vk).max
+        mag = rng.integers(top // 2 + 1, top + 1, size=n)
+        sign = rng.choice([-1, 1], size=n)
+        if n > 1:
+            sign[:2] = [1, -1] if rng.random() < 0.5 else [1, 1]
+        return (mag * sign).astype(vk), vk
+    if vk == 'float32':
+        return (rng.normal(size=n) * 10.0 ** rng.uniform(-3, 6)).astype(np.float32), vk  # sums need > 24 bits
+    v = (rng.uniform(0.55, 1.0, size=n) * float(np.finfo(np.float32).max) * rng.choice([-1.0, 1.0], size=n)).astype(np.float32)
+    return v, vk                                                                         # sums overflow float32
 
 
 def run_shard(ctx):
@@ -760,7 +862,17 @@ def run_shard(ctx):
                 continue
             sh = np.array(vec, dtype=np.int64)
             for n in (1, 2, 4):
-                vals = np.arange(1.0, n + 1.0) * (1 if idx % 2 else -1.5)
+                vsel = idx % 6
+                if vsel < 2:
+                    vals = np.arange(1.0, n + 1.0) * (1 if vsel else -1.5)
+                elif vsel == 2:
+                    vals = np.array([200, 150, 255, 101][:n], dtype=np.uint8)
+                elif vsel == 3:
+                    vals = np.array([100, -120, 127, -128][:n], dtype=np.int8)
+                elif vsel == 4:
+                    vals = np.array([1.0000001, 3.0e38, -2.9e38, 16777217.0][:n], dtype=np.float32)
+                else:
+                    vals = np.array([40000, 65535, 32768, 50001][:n], dtype=np.uint16)
                 for clip in ('none', 'start', 'end', 'both'):
                     _put(eqsig, ctx, vals, sh if idx % 5 else list(vec), None if (clip == 'none' and idx % 2) else clip)
                     n_enum += 1
@@ -780,13 +892,16 @@ def run_shard(ctx):
         s_arg = sh.tolist() if i % 5 == 2 else (sh.astype(np.int32) if i % 5 == 4 else sh)
         for clip in ('none', 'start', 'end', 'both'):
             _put(eqsig, ctx, v_arg, s_arg, clip)
-        if sh.min() >= 0 or i % 4 == 0:
+        if sh.min() >= 0:
+            _join(eqsig, ctx, v_arg, s_arg, 'add')
+            _join(eqsig, ctx, v_arg, s_arg, 'sub')
+        elif i % 4 == 0:
             _join(eqsig, ctx, vals, sh, 'add' if i % 2 else 'sub')
         if i % 10 == 0 and sh.min() >= 0:
             # times -> shifts: observed only; the inner join is monitored on the integer shifts it receives
             dt = gen.dt(rng, 'nice')
             try:
-                eqsig.join_sig_w_time_shift(eqsig.Signal(np.asarray(vals, dtype=float), dt), sh * dt + 0.25 * dt)
+                eqsig.join_sig_w_time_shift(eqsig.Signal(vals, dt), sh * dt + 0.25 * dt, jtype='add' if i % 20 else 'sub')
             except Exception as e:
                 ctx.observe('join_sig_w_time_shift raised %s (not judged)' % type(e).__name__)
     ctx.note('monitored_calls', dict(attach.CALLS))
@@ -804,6 +919,13 @@ def replay(w):
         _rel_batch(eqsig, ctx, w['base_fn'], w)
     elif fn == 'rel.alpha':
         _rel_alpha(eqsig, ctx, w, w['alpha'])
+    elif fn == 'rel.shared':
+        red = np.array(w['up_red'], dtype=float)
+        got = _call(eqsig, ctx, w['base_fn'], dict(w, up_red=red, down_red=red, same_red_object=True))
+        fresh = _call(eqsig, ctx, w['base_fn'], dict(w, up_red=red.copy(), down_red=red.copy(), same_red_object=False))
+        if got is not None and fresh is not None:
+            ctx.check(np.shape(got) == np.shape(fresh) and bool(np.array_equal(got, fresh)), 'shared-reduction==fresh-copies',
+                      w, 'shared reduction array vs separate copies differ')
     elif fn == 'trim_to_length':
         try:
             eqsig.surface.trim_to_length(np.asarray(w['values2d'], dtype=float), int(w['npts']),
